@@ -86,7 +86,7 @@ def run(ctx):
     inits = init_fields(cls)
     replicated = set(inits) - LOCAL
     ctx.rule("R06.0", "field classification: worker-local table vs replicated = other __init__ fields")
-    ctx.floor("R06.0", "replicated_fields", len(replicated), 6)
+    ctx.floor("R06.0", "replicated_fields", len(replicated), 6, exact=True)
     for fld in sorted(LOCAL):
         present = any(self_attr(x) == fld for m in cls.methods.values() for x in own_nodes(m.node))
         ctx.check(present, "R06.0", cls.module.relpath + "::" + cls.name, f"local-field:{fld}",
@@ -108,7 +108,7 @@ def run(ctx):
                     and "property" in cls.methods[x.attr].decorators():
                 work.append(x.attr)
     handlers = sorted(m for m in reach)
-    ctx.floor("R06.0", "handler_functions", len([h for h in handlers if h.startswith("_apply_")]), 10)
+    ctx.floor("R06.0", "handler_functions", len([h for h in handlers if h.startswith("_apply_")]), 10, exact=True)
 
     # which methods write replicated state (transitively)
     direct = {}
@@ -391,7 +391,7 @@ def run(ctx):
     other_cursor_writes = [n for n in g.stmt_nodes() if n not in inc and any(
         isinstance(x, ast.Attribute) and self_attr(x) == "log_number_read" and isinstance(x.ctx, ast.Store) for x in n.walk())]
     disp = [n for n in g.stmt_nodes() for c in n.calls() if (self_attr(c.func) or "").startswith("_apply_")]
-    ctx.floor("R06.4", "dispatch_arms", len(disp), 10)
+    ctx.floor("R06.4", "dispatch_arms", len(disp), 10, exact=True)
     r = g.reachable(body0, avoid_nodes=[head] + inc)
     bad = [d for d in disp if d in r]
     ctx.check(bool(inc) and not bad and not other_cursor_writes, "R06.4", f.short, "cursor-before-dispatch",
